@@ -549,3 +549,119 @@ _labels_post_f = _common_post + ['C04/user-fixed-dates-returned-unchanged', 'C02
 _labels_post_b = _common_post + ['inv/C09/links-bounded', 'C09/ends-not-after-the-project-end', 'C09/ends-not-after-own-successor-starts', 'C09/ends-not-after-inherited-successor-starts']
 
 UNITS = [pass_unit(True), pass_unit(False)]
+
+
+# ================================================================================================ small helpers of calc
+WB = REF('WBS')
+tasksL = Function('wbs_tasks', WB.z, LT.z)          # WBS.tasks: the depth-first listing (assumed contract, C05)
+rootsL = Function('wbs_roots', WB.z, LT.z)
+
+
+def prepare_unit(fwd):
+    cls = 'ForwardScheduler' if fwd else 'BackwardScheduler'
+
+    def build():
+        L = lambda c: tasksL(c['project']); j = Int('j')
+        f = lambda c, n, which='cur': c.fld('Task', n, which)
+
+        def cleared(c, t):
+            return And(Not(some(f(c, 'start')[t])), Not(some(f(c, 'end')[t])), Not(rsome(f(c, '_Task__estimate')[t])), Not(rsome(f(c, '_Task__spent')[t])))
+
+        def same(c, t):
+            return And(*[f(c, n)[t] == f(c, n, 'pre')[t] for n in ('start', 'end', '_Task__estimate', '_Task__spent')])
+
+        def inv(c):
+            i = c['_i0']
+            return And(i >= 0, i <= ln(L(c)),
+                       ForAll([t_], Implies(And(t_ != null, ln(chL(t_)) > 0, mem_t(L(c), t_), idx_t(L(c), t_) < i), cleared(c, t_)), patterns=[mem_t(L(c), t_)]),
+                       ForAll([t_], Implies(Or(t_ == null, ln(chL(t_)) == 0, Not(mem_t(L(c), t_)), idx_t(L(c), t_) >= i), same(c, t_)), patterns=[f(c, 'start')[t_]]))
+        fc = {'sig': {'project': WB},
+              'requires': [('pre', lambda c: And(c['project'] != WB.null, ForAll([j], Implies(And(0 <= j, j < ln(L(c))), at(L(c), j) != null), patterns=[at(L(c), j)]), nodup_t(L(c))))],
+              'loops': {0: {'fingerprint': 'for t in project.tasks', 'invariant': [('cleared-so-far', inv)], 'havoc_heap': FIELDS}},
+              'ensures': [('C07/user-values-on-summary-tasks-are-discarded', lambda c: ForAll([t_], Implies(And(t_ != null, mem_t(L(c), t_), ln(chL(t_)) > 0), cleared(c, t_)), patterns=[mem_t(L(c), t_)])),
+                          ('C04,C06/leaf-tasks-untouched', lambda c: ForAll([t_], Implies(Or(ln(chL(t_)) == 0, Not(mem_t(L(c), t_))), same(c, t_)), patterns=[f(c, 'start')[t_]]))]}
+        contracts = {'prop:WBS.tasks': lambda eng, st, recv, a, k, n: [(st, V(tasksL(recv.e), LT))], 'prop:Task.children': c_list(chL)}
+        return Engine(F, f'{cls}.__prepare_tasks', contracts, CLASSES, fc, plugins=[PassPlugin()]), all_ax() + LISTT_AX
+    return Unit(f'{cls}.__prepare_tasks', F, build, ['C07', 'C04', 'C06'])
+
+
+mem_t = Function('mem_t', LT.z, T.z, BoolSort()); idx_t = Function('idx_t', LT.z, T.z, IntSort()); nodup_t = Function('nodup_t', LT.z, BoolSort())
+_lt = Const('_lt', LT.z); _jt = Int('_jt'); _xt = Const('_xt', T.z)
+LISTT_AX = [ForAll([_lt, _jt], Implies(And(0 <= _jt, _jt < ln(_lt)), mem_t(_lt, at(_lt, _jt))), patterns=[at(_lt, _jt)]),
+            ForAll([_lt, _xt], Implies(mem_t(_lt, _xt), And(0 <= idx_t(_lt, _xt), idx_t(_lt, _xt) < ln(_lt), at(_lt, idx_t(_lt, _xt)) == _xt)), patterns=[mem_t(_lt, _xt)]),
+            ForAll([_lt, _jt], Implies(And(nodup_t(_lt), 0 <= _jt, _jt < ln(_lt)), idx_t(_lt, at(_lt, _jt)) == _jt), patterns=[MultiPattern(nodup_t(_lt), at(_lt, _jt))])]
+
+
+def future_end_unit():
+    def build():
+        L = lambda c: tasksL(c['project']); j = Int('j')
+        en = lambda c: c.fld('Task', 'end')
+        bad = lambda c, now: Exists([j], And(0 <= j, j < ln(L(c)), some(en(c)[at(L(c), j)]), tv(en(c)[at(L(c), j)]) > now))
+        now = lambda c: c.st.env['now'].e
+        fc = {'sig': {'project': WB}, 'clock': True, 'locals': {'now': TIME},
+              'requires': [('pre', lambda c: And(c['project'] != WB.null, ForAll([j], Implies(And(0 <= j, j < ln(L(c))), at(L(c), j) != null), patterns=[at(L(c), j)])))],
+              'loops': {0: {'fingerprint': 'for t in project.tasks',
+                            'invariant': [('none-in-the-future-so-far', lambda c: And(c['_i0'] >= 0, ForAll([j], Implies(And(0 <= j, j < c['_i0']), Not(And(some(en(c)[at(L(c), j)]), tv(en(c)[at(L(c), j)]) > now(c)))))))]}},
+              'raises': {'RuntimeError': [('C14/diagnosis-only-for-a-fixed-end-in-the-future', lambda c: bad(c, now(c)))]},
+              'ensures': [('C14/returns-only-if-no-fixed-end-lies-in-the-future', lambda c: Not(bad(c, now(c))))]}
+        contracts = {'prop:WBS.tasks': lambda eng, st, recv, a, k, n: [(st, V(tasksL(recv.e), LT))], 'prop:Task.id': c_field('Task', '_Task__id', INT)}
+        return Engine(F, 'ForwardScheduler.__check_no_end_dates_in_future', contracts, CLASSES, fc, plugins=[PassPlugin()]), all_ax()
+    return Unit('ForwardScheduler.__check_no_end_dates_in_future', F, build, ['C14'])
+
+
+UNITS += [prepare_unit(True), prepare_unit(False), future_end_unit()]
+
+
+# ------------------------------------------------------------------------------------------------ _validate_graph_isolation
+IDMAP = S('IdMap', DeclareSort('IdMap'))
+idin = Function('idmap_has', IDMAP.z, IntSort(), BoolSort()); idvals = Function('idmap_values', IDMAP.z, LT.z); idwit = Function('idmap_wit', IDMAP.z, IntSort(), IntSort())
+
+
+class IsolationPlugin(PassPlugin):
+    def ev_DictComp(self, eng, e, st):
+        # {task.id: task for task in project.tasks}: the ids of the listed tasks; with unique ids (C05) its values() are the listed tasks in order
+        g = e.generators[0]
+        if ast.unparse(e.key) != f'{g.target.id}.id' or ast.unparse(e.value) != g.target.id or g.ifs: raise Unsupported('dict comprehension form')
+        s, xs = eng.ev1(g.iter, st)
+        d = fresh('idmap', IDMAP); h = H(eng, s); j = Int('j'); k = Int('k')
+        s.assume(idvals(d) == xs.e)
+        s.assume(ForAll([j], Implies(And(0 <= j, j < ln(xs.e)), idin(d, h.tid[at(xs.e, j)])), patterns=[at(xs.e, j)]))
+        s.assume(ForAll([k], Implies(idin(d, k), And(0 <= idwit(d, k), idwit(d, k) < ln(xs.e), h.tid[at(xs.e, idwit(d, k))] == k)), patterns=[idin(d, k)]))
+        return [(s, V(d, IDMAP))]
+
+    def cmp(self, eng, st, k, l, r, line):
+        if k in ('In', 'NotIn') and r.s == IDMAP:
+            c = idin(r.e, l.e); return c if k == 'In' else Not(c)
+        return PassPlugin.cmp(self, eng, st, k, l, r, line)
+
+    def call(self, eng, e, st):
+        f = e.func
+        if isinstance(f, ast.Attribute) and f.attr == 'values' and not e.args:
+            s, d = eng.ev1(f.value, st)
+            if d.s == IDMAP: return [(s, V(idvals(d.e), LT))]
+        return PassPlugin.call(self, eng, e, st)
+
+
+def isolation_unit():
+    def build():
+        L = lambda c: tasksL(c['project']); j = Int('j'); q = Int('qq'); k = Int('k')
+        h = lambda c: H(c.eng, c.st)
+        member_id = lambda c, x: Exists([k], And(0 <= k, k < ln(L(c)), h(c).tid[at(L(c), k)] == x))
+        offending = lambda c, t, p: And(Not(member_id(c, h(c).tid[p])), Or(Not(some(h(c).start[p])), Not(some(h(c).end[p]))))
+        bad = lambda c: Exists([j, q], And(0 <= j, j < ln(L(c)), 0 <= q, q < ln(preL(at(L(c), j))), offending(c, at(L(c), j), at(preL(at(L(c), j)), q))))
+        clean_upto = lambda c, i: ForAll([j, q], Implies(And(0 <= j, j < i, 0 <= q, q < ln(preL(at(L(c), j)))), Not(offending(c, at(L(c), j), at(preL(at(L(c), j)), q)))))
+        fc = {'sig': {'project': WB}, 'locals': {},
+              'requires': [('pre', lambda c: And(c['project'] != WB.null, ln(L(c)) >= 0, ForAll([j], Implies(And(0 <= j, j < ln(L(c))), at(L(c), j) != null), patterns=[at(L(c), j)]),
+                                                 ForAll([t_, q], Implies(And(t_ != null, 0 <= q, q < ln(preL(t_))), at(preL(t_), q) != null), patterns=[at(preL(t_), q)])))],
+              'loops': {0: {'fingerprint': 'for t in all_tasks.values()', 'invariant': [('no-offending-link-so-far', lambda c: And(c['_i0'] >= 0, c['_i0'] <= ln(L(c)), clean_upto(c, c['_i0'])))]},
+                        1: {'fingerprint': 'for pr in t.predecessors',
+                            'invariant': [('no-offending-link-so-far', lambda c: And(c['_i0'] >= 1, c['_i0'] <= ln(L(c)), c['t'] == at(L(c), c['_i0'] - 1), clean_upto(c, c['_i0'] - 1), c['_i1'] >= 0,
+                                                                                     ForAll([q], Implies(And(0 <= q, q < c['_i1']), Not(offending(c, c['t'], at(preL(c['t']), q)))))))], 'havoc': ['t']}},
+              'raises': {'RuntimeError': [('C14/diagnosis-only-for-an-outside-predecessor-without-dates', bad)]},
+              'ensures': [('C14/returns-only-if-every-outside-predecessor-has-both-dates', lambda c: Not(bad(c)))]}
+        contracts = {'prop:WBS.tasks': lambda eng, st, recv, a, k_, n: [(st, V(tasksL(recv.e), LT))], 'prop:Task.predecessors': c_list(preL), 'prop:Task.id': c_field('Task', '_Task__id', INT)}
+        return Engine(F, '_validate_graph_isolation', contracts, CLASSES, fc, plugins=[IsolationPlugin()]), all_ax()
+    return Unit('_validate_graph_isolation', F, build, ['C14'])
+
+
+UNITS.append(isolation_unit())
